@@ -66,6 +66,8 @@ pub fn replay(prop: &str, case: &serde_json::Value) -> Result<u64, String> {
             c10::replay(case)
         }
         "c16-history" => c16::replay(case),
+        "c06-text" => c06::replay(case),
+        "c05-input" => c05::replay(case),
         "c20-parity" | "c20-history" | "c20-pair" | "c20-panic" => c20::replay(case),
         "c19-sequence" | "c19-pair" => c19::replay(case),
         "c18-schedule" | "c18-first-use" | "c18-free-running" => c18::replay(case),
